@@ -17,6 +17,7 @@
            open <n> <r|m>                -> "open ok <c>" | "open err 0"
            close <c>                     -> "close <status>"
            use <c>                       cgio_get_root_id + cgio_get_node_id(/D) + cgio_get_label -> "use <0|1> <label or ->"
+           walk <c> <n>                  label of /D/L<n> read through handle c (a link into file n) -> "walk <0|1> <label or ->"
            get <c>                       cgio_get_file_type (looks at nothing but get_cgnsio)      -> "get <status> <type>"  */
 #include <stdio.h>
 #include <stdlib.h>
@@ -211,6 +212,14 @@ int main(int argc, char **argv)
                 if (!st) st = cgio_get_node_id(c, root, "/D", &idd);
                 if (!st) st = cgio_get_label(c, idd, label);
                 printf("use %d %s", st ? 1 : 0, st ? "-" : label); dump_io();
+            } else if (sscanf(line, "walk %d %d", &c, &n) == 2) {
+                /* read through the link node /D/L<n> of the file behind handle c: must reach the node /D of file n */
+                double root = 0, idd = 0; char label[CGIO_MAX_LABEL_LENGTH + 1] = "-", path[64]; int st;
+                sprintf(path, "/D/L%d", n);
+                st = cgio_get_root_id(c, &root);
+                if (!st) st = cgio_get_node_id(c, root, path, &idd);
+                if (!st) st = cgio_get_label(c, idd, label);
+                printf("walk %d %s", st ? 1 : 0, st ? "-" : label); dump_io();
             } else if (sscanf(line, "get %d", &c) == 1) {
                 int ft = -1, st = cgio_get_file_type(c, &ft);
                 printf("get %d %d", st ? 1 : 0, st ? -1 : ft); dump_io();
